@@ -174,7 +174,11 @@ class Bisection1D:
         # find upper bound that respects max_boreholes
         if self.sim_params.max_boreholes is not None:
             num_coordinates_in_each = [len(x) for x in self.coordinates_domain]
-            x_r_idx = [idx for idx, x in enumerate(num_coordinates_in_each) if x < self.sim_params.max_boreholes][-1]
+            below_cap = [idx for idx, x in enumerate(num_coordinates_in_each) if x < self.sim_params.max_boreholes]
+            if not below_cap:
+                # e.g. a polygon-constrained domain whose smallest field already has max_boreholes holes
+                raise ValueError("Search failed: no candidate field has fewer boreholes than max_boreholes.")
+            x_r_idx = below_cap[-1]
         else:
             x_r_idx = len(self.coordinates_domain) - 1
 
